@@ -18,7 +18,7 @@ P04 == INSTANCE P_C04
 
 Bit(n, b) == (n \div b) % 2 = 1
 Cfgs == {[allowId |-> Bit(a, 1), allowHier |-> Bit(a, 2), allowSize |-> Bit(a, 4), hasMax |-> FALSE, max |-> <<>>,
-          buffered |-> {}, eofClose |-> FALSE] : a \in AllowSets}
+          buffered |-> {}, eofClose |-> FALSE, cap0 |-> 16] : a \in AllowSets}
 Whole == ParseAll(S3, cfg, inp)
 \* tag boundaries of the whole parse: starts of its non-End items (and the end of the input)
 Boundaries == {Whole[i].off : i \in {j \in 1..Len(Whole) : Whole[j].res = "item" /\ Whole[j].kind # "end"}} \cup {Len(inp)}
